@@ -118,3 +118,7 @@ impl<T> fmt::Debug for JoinHandle<T> {
         f.pad("JoinHandle { .. }")
     }
 }
+
+#[cfg(kani)]
+#[path = "/verif/harness/may/join.rs"]
+mod verif_kani;
